@@ -1,6 +1,6 @@
 (** C03 — observations of real client + real server + recording backend compared with Client/ClientModel.v. *)
 From Coq Require Import NArith String List Bool.
-From P9V Require Import gen.ConstGen gen.ClientGen Client.Chunk Client.ClientModel Client.Errs Client.Composed.
+From P9V Require Import gen.ConstGen gen.ClientGen Client.Chunk Client.ClientModel Client.Errs Client.Composed Client.PathSeq Client.PathSeqTie.
 Import ListNotations.
 Open Scope string_scope.
 
@@ -15,7 +15,10 @@ Inductive c03case :=
 | CXattr (is_list : bool) (cs : N) (value : list N) (drop : nat) (walk_err : option errv) (fid : N) (name : string)
          (calls : list ocall) (returned : bool) (got : list N) (err : option N) (conn : bool)
 (* WalkGetAttr at version v *)
-| CWga (v : N) (names : list string) (fid : N) (getattr_fails : bool) (calls : list ocall) (err : option N) (ret ans : list val).
+| CWga (v : N) (names : list string) (fid : N) (getattr_fails : bool) (calls : list ocall) (err : option N) (ret ans : list val)
+(* a sequence through several handles: fids of root, d1 (twice), d2 (twice) and of the entry fname of d1; per step the
+   operation, the backend calls observed and the error (None = nil, Some n = errno n) *)
+| CSeq (v : N) (fids : list N) (fname : string) (steps : list (sop * list ocall * option N)).
 
 Fixpoint all2 {A B} (f : A -> B -> bool) (a : list A) (b : list B) : bool :=
   match a, b with
@@ -50,6 +53,15 @@ Definition call_matches (m : bcall) (o : ocall) : bool :=
 Definition local_enosys (op : string) : bool :=
   match find_method op with Some m => String.eqb (gm_local m) "ENOSYS" | None => false end.
 
+Definition seq_init (fids : list N) (fname : string) : pstate :=
+  let fid i := nth i fids 0%N in
+  mkps [mkpn None "" true false; mkpn (Some 0%nat) "d1" true false; mkpn (Some 0%nat) "d2" true false; mkpn (Some 1%nat) fname true false]
+       [mkpr (fid 0%nat) 0 None; mkpr (fid 1%nat) 1 (Some 0%nat); mkpr (fid 2%nat) 1 (Some 0%nat); mkpr (fid 3%nat) 2 (Some 0%nat);
+        mkpr (fid 4%nat) 2 (Some 0%nat); mkpr (fid 5%nat) 3 (Some 1%nat)].
+
+Definition opt_N_eqb (a b : option N) : bool :=
+  match a, b with Some x, Some y => N.eqb x y | None, None => true | _, _ => false end.
+
 Definition agrees (c : c03case) : bool :=
   match c with
   | COp op v e fail answer calls err conn_err _ _ =>
@@ -77,6 +89,10 @@ Definition agrees (c : c03case) : bool :=
       let fails := gfails && negb (pred_holds v "versionSupportsTwalkgetattr") in
       all2 call_matches (walkgetattr_calls v e fails) calls &&
       match err with None => negb fails | Some n => fails && N.eqb n 5 end
+  | CSeq v fids fname steps =>
+      (* the model with the short-circuit as go2coq read it from handlers.go (PathSeqTie.bynode_of_source) *)
+      all2 (fun m o => all2 call_matches (fst m) (snd (fst o)) && opt_N_eqb (snd m) (snd o))
+           (prun bynode_of_source (seq_init fids fname) (map (fun s => fst (fst s)) steps)) steps
   end.
 
 (** the property on what was observed: the backend saw the operation the caller made with the caller's
@@ -126,6 +142,18 @@ Definition property_holds (c : c03case) : bool :=
       end &&
       (if (v <? 2)%N then existsb (fun c => String.eqb (oc_m c) "GetAttr" && all2 val_eqb (oc_args c) [VR (repeat 1%N 14)]) calls
        else forallb (fun c => String.eqb (oc_m c) "WalkGetAttr") calls)
+  | CSeq v fids fname steps =>
+      (* the entry is never removed or replaced in these sequences: every operation through its handle reaches its
+         File, once, with the caller's arguments, and no rename is refused *)
+      forallb (fun s => match s with
+                        | (SProbe f m args, calls, err) =>
+                            match calls with
+                            | [c1] => String.eqb (oc_m c1) m && match oc_on c1 with TFid x => N.eqb x (nth f fids 0%N) | _ => false end &&
+                                      all2 val_eqb (oc_args c1) args
+                            | _ => false
+                            end && opt_N_eqb err None
+                        | (_, calls, err) => opt_N_eqb err None && Nat.leb (List.length calls) 1
+                        end) steps
   end.
 
 Fixpoint failing (f : c03case -> bool) (i : nat) (l : list c03case) : list nat :=
